@@ -136,3 +136,83 @@ Definition block_skip (r : option rstack) : res (nat * option rstack) :=
   | None => Ok (0, None)
   | Some _ => unpack r
   end.
+
+(* ------------------------------------------------------------------ children of a block container, out-of-flow ones included *)
+
+(* findEarlierPageBreak, block case (blocks.go:1175-1203).  The laid-out children of a
+   block container are in normal flow or not (float / absolutely positioned placeholders
+   sit between their in-flow siblings); every child carries its own content.  The scan runs
+   from the last child backwards, remembers the last in-flow child seen (`previousInFlow`)
+   and stops at the first in-flow child `index` whose boundary to that sibling is not
+   `avoid`: children[:index+1] stay on the page and the next page resumes at
+   children[index+1].Index -- the FIRST removed child, which is an out-of-flow box when one
+   sits at the break. *)
+Section Siblings.
+  Variable U : Type.
+  Record child := mkChild { in_flow : bool; c_units : list U }.
+
+  (* what the index i of a resume stack {i: nil} designates: children i, i+1, ... *)
+  Definition sib_content_from (cs : list child) (i : nat) : list U :=
+    flat_map c_units (skipn i cs).
+
+  (* avoid_after i: the break between in-flow child i and the next in-flow sibling is avoided *)
+  Variable avoid_after : nat -> bool.
+
+  (* the loop, on the children paired with their index, last first; returns the number of
+     children kept *)
+  Fixpoint feb_scan (rev_cs : list (nat * child)) (previous_in_flow : bool) : option nat :=
+    match rev_cs with
+    | [] => None                                       (* blocks.go:1229 i_ == L *)
+    | (i, c) :: r =>
+        if in_flow c then
+          if previous_in_flow && negb (avoid_after i) then Some (S i)   (* 1196: index += 1 *)
+          else feb_scan r true                                          (* 1202 *)
+        else feb_scan r previous_in_flow
+    end.
+
+  Definition find_earlier_break (cs : list child) : option nat :=
+    feb_scan (rev (combine (seq 0 (length cs)) cs)) false.
+
+  (* the step after the rewind: children[:j] kept, resume at child r *)
+  Definition rewound_step (cs : list child) (j r : nat) : step nat U :=
+    mkStep 0 (flat_map c_units (firstn j cs)) (Some r).
+
+  (* blocks.go:1199: r = children[j].Index *)
+  Definition find_earlier_step (cs : list child) : option (step nat U) :=
+    option_map (fun j => rewound_step cs j j) (find_earlier_break cs).
+End Siblings.
+Arguments mkChild {U} in_flow c_units.
+Arguments in_flow {U} c.
+Arguments c_units {U} c.
+
+(* ------------------------------------------------------------------ a table row split between two pages *)
+
+(* tables.go:133-241.  Every cell of a row is a flow of its own, laid out with its own
+   resume position.  When the row is split, resumeAt[indexRow] maps the cells that are NOT
+   finished to their resume position (line 236-241); on the next page a cell that is absent
+   from that map is given the stack {len(cell.Children): nil}: nothing is left of it (lines
+   180-184).  When nothing of a continued cell fits on a page (newCell == nil, lines
+   221-225) the unchanged implementation resumes that cell at {0: nil}. *)
+Section RowSplit.
+  Variable U : Type.
+
+  (* what the row's resume map records for a cell of which the first p units were placed *)
+  Definition cell_record (len p : nat) : option nat :=
+    if p <? len then Some p else None.
+
+  (* [absent_is_end] = true: tables.go:183; false: a missing key read as the nil stack *)
+  Definition cell_skip (absent_is_end : bool) (len : nat) (r : option nat) : nat :=
+    match r with
+    | Some p => p
+    | None => if absent_is_end then len else 0
+    end.
+
+  (* a cell over two pages: p units on the first, the rest from its skip position on *)
+  Definition cell_two_pages (absent_is_end : bool) (c : list U) (p : nat) : list U :=
+    firstn p c ++ skipn (cell_skip absent_is_end (length c) (cell_record (length c) p)) c.
+
+  (* a continued cell (skip position s) of which nothing fits on the second of three pages:
+     [restart] = true is tables.go:225 (resume at {0: nil}), false resumes where it was *)
+  Definition cell_three_pages (restart : bool) (c : list U) (s : nat) : list U :=
+    firstn s c ++ [] ++ skipn (if restart then 0 else s) c.
+End RowSplit.
